@@ -290,7 +290,10 @@ def read_dressed(w, t, h, problems, path=""):
                 out.append((f[0], ("badarray", repr(type(v)))))
             else:
                 shape = tuple(int(d) for d in v.shape)
-                out.append((f[0], ("ar", shape, [("sc", v[idx].tobytes().hex()) for idx in c_indices(shape)])))
+                if int(np.prod(shape, dtype=object)) > 2_000_000:
+                    out.append((f[0], ("badarray", f"implausible shape {shape}")))  # (a garbage header: not iterated)
+                else:
+                    out.append((f[0], ("ar", shape, [("sc", v[idx].tobytes().hex()) for idx in c_indices(shape)])))
         elif k == "struct":
             xpart = getattr(h._xobject, f[0])
             if hasattr(v, "_xobject"):
@@ -665,22 +668,24 @@ class HStep(Step):
             h = getattr(o, "dressed", None)
             if h is None:
                 continue
+            # (an object that came back from the pickled form must be fully usable: C20's subject)
+            mprop = "C20" if self.kind == "h_restart" or getattr(o.buf, "_sim_restored", False) else "C18"
             if h._xobject._buffer is not o.buf or int(h._xobject._offset) != o.off:
-                self.viol("C18", "dressed_object_left_its_storage", [self.kind], f"object {o.k}: dressed at (buffer {h._xobject._buffer._ctl.bid},{int(h._xobject._offset)}), registered at ({o.bufid},{o.off})")
+                self.viol(mprop, "dressed_object_left_its_storage", [self.kind], f"object {o.k}: dressed at (buffer {h._xobject._buffer._ctl.bid},{int(h._xobject._offset)}), registered at ({o.bufid},{o.off})")
                 return
             problems = []
             try:
                 got = read_dressed(w, o.t, h, problems)
             except Exception as e:
-                self.viol("C18", "attribute_read_raised", [self.kind, exc_sig(e), typegen.features(w.schema, o.t)], f"object {o.k}: {type(e).__name__}: {e}")
+                self.viol(mprop, "attribute_read_raised", [self.kind, exc_sig(e), typegen.features(w.schema, o.t)], f"object {o.k}: {type(e).__name__}: {e}")
                 return
             if problems:
-                self.viol("C18", "dressed_part_out_of_sync", [self.kind, self.feat_h()], f"object {o.k}: {problems[0]}; after {str(self.op)[:300]}")
+                self.viol(mprop, "dressed_part_out_of_sync", [self.kind, self.feat_h()], f"object {o.k}: {problems[0]}; after {str(self.op)[:300]}")
                 return
             want = M.snapshot(w.schema, o.t, o.node)
             if not M.same(want, got):
                 d = M.first_diff(want, got)
-                self.viol("C18", "attribute_ne_buffer_data", [self.kind, self.feat_h(), "xref" if M.crosses_ref(d) or (d and "ref target" in d) else "direct"], f"object {o.k}: {d} (model/buffer vs attribute); after {str(self.op)[:300]}")
+                self.viol(mprop, "attribute_ne_buffer_data", [self.kind, self.feat_h(), "xref" if M.crosses_ref(d) or (d and "ref target" in d) else "direct"], f"object {o.k}: {d} (model/buffer vs attribute); after {str(self.op)[:300]}")
                 return
             self.res.probe("mirror_checked")
 
